@@ -153,6 +153,18 @@ theorem cell_conversions (c : Cell) :
     Cell.other.asDatetime = none ∧ Cell.other.asDuration = none :=
   ⟨rfl, rfl, fun _ _ => rfl, fun _ => rfl, rfl, rfl⟩
 
+/-- the serde helpers (`deserialize_as_*`): for plain numbers and for 1900-system date-time cells
+    (`ms1900 = msDt`) they give what the direct conversion gives for date, time and date-time;
+    **known findings, proved of the model:** a 1904-system cell is converted as if it were a
+    1900-system one (`ms1900` instead of `msDt`), and no cell ever yields a duration -/
+theorem serde_helpers (c : Cell) (ms1900 : MsIn) :
+    (∀ m, (Cell.num m).viaSerde ms1900 = Cell.num m) ∧
+    (∀ m d, ((Cell.dateTime m d).viaSerde m).asDatetime = (Cell.dateTime m d).asDatetime) ∧
+    (∀ m d, ((Cell.dateTime m d).viaSerde ms1900).asDatetime = asDatetimeOfMs ms1900) ∧
+    (c.viaSerde ms1900).asDuration = none := by
+  refine ⟨fun _ => rfl, fun _ _ => rfl, fun _ _ => rfl, ?_⟩
+  cases c <;> rfl
+
 /-- whole-day serials of the supported range convert to midnight of their calendar date -/
 theorem whole_day_datetime (is1904 : Bool) (n : Int) (h0 : 0 ≤ n) (h1 : n ≤ 2958465) :
     datetimeOfSerial is1904 n =
